@@ -226,6 +226,9 @@ type tableSpec struct {
 	ifaceType    string
 	ifaceKeyMeth []string
 	indexes      map[string]indexSpec
+	// rows are struct VALUES (state.ServiceVirtualIP, state.FreeVirtualIP), not pointers: the table maps the key to
+	// the boxed value (the interface payload); fields are read from the unboxed datatype, there is no allocation fact
+	valueRow bool
 }
 
 var tables = map[string]*tableSpec{}
@@ -281,6 +284,23 @@ func init() {
 	addTable(&tableSpec{name: "federation-states", rowPkg: structsPkg, rowType: "FederationState", keyField: "Datacenter", lower: true})
 	addTable(&tableSpec{name: "system-metadata", rowPkg: structsPkg, rowType: "SystemMetadataEntry", keyField: "Key", lower: true})
 	addTable(&tableSpec{name: "usage", rowPkg: statePkg, rowType: "UsageEntry", keyField: "ID", lower: true})
+	// gateway-services: id = (Gateway, Service, Port); ServiceNameIndex lower-cases the name (CE: the name is all of it)
+	addTable(&tableSpec{name: "gateway-services", rowPkg: structsPkg, rowType: "GatewayService",
+		keyFields: []string{"Gateway.Name", "Service.Name", "Port"}, keyLower: []bool{true, true, false},
+		indexes: map[string]indexSpec{
+			"gateway": {kind: "multieq", fields: []string{"Gateway.Name"}, lowers: []bool{true}, argFields: []string{"Name"}},
+			"service": {kind: "multieq", fields: []string{"Service.Name"}, lowers: []bool{true}, argFields: []string{"Name"}}}})
+	// service-virtual-ips: rows are ServiceVirtualIP VALUES keyed by (peer, service name)
+	addTable(&tableSpec{name: "service-virtual-ips", rowPkg: statePkg, rowType: "ServiceVirtualIP", valueRow: true,
+		keyFields: []string{"Service.Peer", "Service.ServiceName.Name"}, keyLower: []bool{true, true},
+		altPkg: structsPkg, altType: "PeeredServiceName", altFields: []string{"Peer", "ServiceName.Name"}})
+	// free-virtual-ips: rows are FreeVirtualIP VALUES. The schema's id index is (StringFieldIndex{IP}, counter):
+	// go-memdb's StringFieldIndex reads the field with reflect.Value.String(), which for a net.IP (a byte slice)
+	// is the constant "<net.IP Value>" - so the IP does NOT take part in the key and the table has two slots,
+	// one per value of IsCounter (checked against the real store: a second freed IP replaces the first).
+	addTable(&tableSpec{name: "free-virtual-ips", rowPkg: statePkg, rowType: "FreeVirtualIP", valueRow: true,
+		keyFields: []string{"IsCounter"}, keyLower: []bool{false},
+		indexes: map[string]indexSpec{"counter": {kind: "booleq", field: "IsCounter"}}})
 	addTable(&tableSpec{name: "sessions", rowPkg: structsPkg, rowType: "Session", keyField: "ID", lower: true,
 		indexes: map[string]indexSpec{"node": {kind: "fieldeq", field: "Node", lower: true}, "id_prefix": {kind: "prefix"}}})
 }
@@ -292,6 +312,9 @@ func (e *Engine) tableRowType(t *tableSpec) types.Type {
 	rt := e.lookupType(t.rowPkg, t.rowType)
 	if rt == nil {
 		return nil
+	}
+	if t.valueRow {
+		return rt
 	}
 	return types.NewPointer(rt)
 }
@@ -311,6 +334,9 @@ func (e *Engine) installTableObjs(pkg *types.Package) {
 		var params []*types.Var
 		if !t.single {
 			params = append(params, types.NewVar(token.NoPos, pkg, "k", types.NewInterfaceType(nil, nil)))
+		}
+		if t.valueRow {
+			rt = types.NewInterfaceType(nil, nil)
 		}
 		sig := types.NewSignatureType(nil, nil, nil, types.NewTuple(params...), types.NewTuple(types.NewVar(token.NoPos, pkg, "", rt)), false)
 		fn := types.NewFunc(token.NoPos, pkg, fname, sig)
@@ -347,6 +373,9 @@ func (f *Frame) tableAccessor(st *State, e *ast.CallExpr, name string) *Term {
 	f.rowWellFormed(st, t, k, r)
 	if t.ifaceRow {
 		return f.rowIfaceAt(st, t, k, r)
+	}
+	if t.valueRow {
+		return f.rowIface(t, r)
 	}
 	return r
 }
@@ -386,6 +415,12 @@ func (f *Frame) rowKey(st *State, t *tableSpec, ref *Term) *Term {
 	var parts []*Term
 	for i, kf := range t.keyFields {
 		v := f.rowField(st, t, ref, kf)
+		if v.Sort == SBool {
+			v = Ite(v, c.strLit("true"), c.strLit("false"))
+		}
+		if v.Sort == SInt {
+			v = c.intKey(v)
+		}
 		if v.Sort != SStr {
 			panic(unsupported{"table " + t.name + ": key component " + kf + " is not a string"})
 		}
@@ -395,6 +430,17 @@ func (f *Frame) rowKey(st *State, t *tableSpec, ref *Term) *Term {
 		parts = append(parts, v)
 	}
 	return c.tupleKey(parts)
+}
+
+// intKey: injective encoding of an integer key component as a string (memdb.IntFieldIndex)
+func (c *Ctx) intKey(v *Term) *Term {
+	first := !c.declared["fun:intKey"]
+	fn := c.declareFun("intKey", []Sort{SInt}, SStr)
+	if first {
+		inv := c.declareFun("intKey!inv", []Sort{SStr}, SInt)
+		c.decls = append(c.decls, fmt.Sprintf("(assert (forall ((x Int)) (! (= (%s (%s x)) x) :pattern ((%s x)))))", inv, fn, fn))
+	}
+	return App(fn, SStr, v)
 }
 
 // tupleKey: injective encoding of n strings as one key (uninterpreted, with projection axioms)
@@ -429,6 +475,10 @@ func (f *Frame) rowField(st *State, t *tableSpec, ref *Term, path string) *Term 
 	v := ref // a pointer to cur
 	isPtr := true
 	var sval *Term
+	if t.valueRow {
+		isPtr = false
+		sval = f.unbox(st, App("mkI", SIfc, f.c.tagOf(cur), ref), cur)
+	}
 	for _, name := range strings.Split(path, ".") {
 		stt, ok := types.Unalias(cur).Underlying().(*types.Struct)
 		if !ok {
@@ -479,7 +529,11 @@ func (f *Frame) tableWF(st *State, t *tableSpec) {
 		c.inQuant++
 		key := f.rowKey(w, t, r)
 		c.inQuant--
-		body = Forall([]*Term{k}, Implies(Ne(r, IntLit(0)), And(Select(al, r), Eq(key, k))), r)
+		if t.valueRow {
+			body = Forall([]*Term{k}, Implies(Ne(r, IntLit(0)), Eq(key, k)), r)
+		} else {
+			body = Forall([]*Term{k}, Implies(Ne(r, IntLit(0)), And(Select(al, r), Eq(key, k))), r)
+		}
 	}
 	if !t.single {
 		// the id indexers reject an empty key, so no row is ever filed under it
@@ -563,6 +617,9 @@ func (f *Frame) varArg(st *State, e *ast.CallExpr, packed *Term, fixed int, i in
 // argKey computes the normalised lookup key from a query argument of static type at.
 func (f *Frame) argKey(st *State, t *tableSpec, v *Term, at types.Type, n ast.Node) *Term {
 	if rt := f.eng.tableRowType(t); rt != nil && types.Identical(types.Unalias(at), rt) && (len(t.keyFields) > 0 || strings.Contains(t.keyField, ".")) {
+		if t.valueRow && v.Sort != SInt {
+			v = ifaceRef(f.box(st, v, at)) // a row value given directly: key of its boxed form
+		}
 		return f.rowKey(st, t, v)
 	}
 	if t.altType != "" {
@@ -646,14 +703,22 @@ func (f *Frame) altKey(st *State, t *tableSpec, ref *Term, isPtr bool) *Term {
 		if isPtr {
 			v = f.rowField(st, alt, ref, kf)
 		} else {
-			// a struct value: plain (non-dotted) field
-			at := f.eng.lookupType(t.altPkg, t.altType)
-			si := f.c.structInfo(at)
-			idx, ok := si.byName[kf]
-			if !ok {
-				panic(unsupported{"table " + t.name + ": alt key field " + kf})
+			// a struct value: a (possibly dotted) path through nested struct values
+			var cur types.Type = f.eng.lookupType(t.altPkg, t.altType)
+			v = ref
+			for _, name := range strings.Split(kf, ".") {
+				stt, isStruct := types.Unalias(cur).Underlying().(*types.Struct)
+				if !isStruct {
+					panic(unsupported{"table " + t.name + ": alt key path " + kf + " traverses a non-struct value"})
+				}
+				si := f.c.structInfo(cur)
+				idx, ok := si.byName[name]
+				if !ok {
+					panic(unsupported{"table " + t.name + ": alt key field " + kf})
+				}
+				v = f.c.fieldGet(v, si, idx)
+				cur = stt.Field(idx).Type()
 			}
-			v = f.c.fieldGet(ref, si, idx)
 		}
 		if i < len(t.keyLower) && t.keyLower[i] {
 			v = f.c.strLower(v)
@@ -747,12 +812,18 @@ func (f *Frame) memdbLookup(st *State, e *ast.CallExpr, args []*Term) (*Term, *T
 			return r, Eq(k, Sym("strEmpty", SStr))
 		}
 		return r, TFalse
-	case "fieldeq":
+	case "fieldeq", "booleq":
 		v, at, ok := f.varArg(st, e, packed, 2, 0)
 		if !ok {
 			f.fail(e, "First on field index without argument")
 		}
-		v = f.argString(st, v, at, e)
+		if ix.kind == "booleq" {
+			if v.Sort != SBool {
+				f.fail(e, "conditional index queried with a non-bool argument")
+			}
+		} else {
+			v = f.argString(st, v, at, e)
+		}
 		if ix.lower {
 			v = c.strLower(v)
 		}
@@ -987,12 +1058,18 @@ func modelGet(f *Frame, st *State, e *ast.CallExpr, recv *Term, args []*Term, si
 			}
 			return c.prefixOf(p, key)
 		}
-	case "fieldeq":
+	case "fieldeq", "booleq":
 		v, at, ok := f.varArg(st, e, args[2], 2, 0)
 		if !ok {
 			f.fail(e, "Get on field index needs one argument")
 		}
-		v = f.argString(st, v, at, e)
+		if ix.kind == "booleq" {
+			if v.Sort != SBool {
+				f.fail(e, "conditional index queried with a non-bool argument")
+			}
+		} else {
+			v = f.argString(st, v, at, e)
+		}
 		if ix.lower {
 			v = c.strLower(v)
 		}
@@ -1035,8 +1112,12 @@ func modelGet(f *Frame, st *State, e *ast.CallExpr, recv *Term, args []*Term, si
 	pa := pred(w, ej, kj)
 	c.inQuant--
 	al := c.heapGet(st, "ALLOC", ArrSort(SInt, SBool))
+	allocd := Select(al, ej)
+	if t.valueRow {
+		allocd = TTrue
+	}
 	c.assume(st, Forall([]*Term{j}, Implies(And(Ge(j, IntLit(0)), Lt(j, ln)),
-		And(Ne(ej, IntLit(0)), Select(al, ej), Eq(Select(tb, kj), ej), pa, Eq(App(posf, SInt, kj), j))), ej))
+		And(Ne(ej, IntLit(0)), allocd, Eq(Select(tb, kj), ej), pa, Eq(App(posf, SInt, kj), j))), ej))
 	// (b) every present row satisfying the predicate is enumerated
 	k := c.bvar("k", SStr)
 	rk := Select(tb, k)
